@@ -2,6 +2,7 @@
     extracted to OCaml (bulk) and by vm_compute inside Coq (cross-check of the extraction). *)
 From PyxisModel Require Import Base Sexp Grammar SemTypes Registry Sem Emit.
 From PyxisModel Require C03Core.
+From PyxisModel Require Import Syntax.
 Local Open Scope string_scope.
 Local Open Scope list_scope.
 
@@ -88,12 +89,74 @@ Definition run_c03 (fields : list sexp) : sexp :=
   | None => SList [Atom "c03"; Atom "bad_case"]
   end.
 
+(** C18: the Coq parser on the token stream the real lexer produced:
+    (c18 type TOK...) / (c18 attrs TOK...) with TOK = (id "s") | (int Z) | (str "s") | (p "c") | (g delim TOK...) *)
+Fixpoint tok_of_sexp (fuel : nat) (e : sexp) : option tok :=
+  match fuel with
+  | O => None
+  | S f =>
+    match e with
+    | SList [Atom "id"; Str s] => Some (KId s)
+    | SList [Atom "int"; z] => option_map KInt (atom_Z z)
+    | SList [Atom "str"; Str s] => Some (KStr s)
+    | SList [Atom "p"; Str s] => Some (KPunct s)
+    | SList (Atom "g" :: Atom d :: ts) =>
+      olet d' <- (if String.eqb d "paren" then Some Paren else if String.eqb d "bracket" then Some Bracket
+                  else if String.eqb d "brace" then Some Brace else None);
+      olet ts' <- omap (tok_of_sexp f) ts; Some (KGroup d' ts')
+    | _ => None
+    end
+  end.
+Fixpoint sexp_of_gtype (t : gtype) : sexp :=
+  match t with
+  | GConstPtr t' => SList [Atom "cptr"; sexp_of_gtype t']
+  | GMutPtr t' => SList [Atom "mptr"; sexp_of_gtype t']
+  | GArray t' n => SList [Atom "array"; sexp_of_gtype t'; sN n]
+  | GIdent s => SList [Atom "tid"; Str s]
+  | GUnknown n => SList [Atom "unknown"; sN n]
+  end.
+Definition sexp_of_gexpr (e : gexpr) : sexp :=
+  match e with
+  | EInt z => SList [Atom "int"; sZ z] | EStr s => SList [Atom "str"; Str s] | EIdent s => SList [Atom "id"; Str s]
+  end.
+Definition sexp_of_gattr (a : gattr) : sexp :=
+  match a with
+  | AIdent n => SList [Atom "ident"; Str n]
+  | AFn n args => SList (Atom "fn" :: Str n :: map sexp_of_gexpr args)
+  | AAssign n e => SList [Atom "assign"; Str n; sexp_of_gexpr e]
+  end.
+Fixpoint sexp_depth (e : sexp) : nat :=
+  match e with
+  | SList l => S (fold_left Nat.max (map sexp_depth l) O)
+  | _ => 1
+  end.
+Definition run_c18 (args : list sexp) : sexp :=
+  match args with
+  | Atom kind :: toks =>
+    match omap (tok_of_sexp (S (sexp_depth (SList toks)))) toks with
+    | None => SList [Atom "c18"; Atom "bad_tokens"]
+    | Some ts =>
+      if String.eqb kind "type" then
+        match parse_type (S (S (List.length toks + sexp_depth (SList toks)))) ts with
+        | Some (t, []) => SList [Atom "c18"; SList [Atom "ok"; sexp_of_gtype t]]
+        | _ => SList [Atom "c18"; Atom "err"]
+        end
+      else
+        match parse_attrs (S (List.length ts)) ts with
+        | Some (l, []) => SList [Atom "c18"; SList [Atom "ok"; SList (Atom "attrs" :: map sexp_of_gattr l)]]
+        | _ => SList [Atom "c18"; Atom "err"]
+        end
+    end
+  | _ => SList [Atom "c18"; Atom "bad_case"]
+  end.
+
 Definition run_case_sexp (e : sexp) : sexp :=
+  match tagged "c18" e with Some args => run_c18 args | None =>
   match tagged "c03" e with Some fields => run_c03 fields | None =>
   match case_of_sexp e with
   | Some (ptr, ks, mods) => run_model ptr ks mods
   | None => SList [Atom "model"; SList [Atom "bad_case"]]
-  end end.
+  end end end.
 
 (** text in, text out: one result line per case *)
 Definition run_cases (input : string) : list string :=
